@@ -82,6 +82,11 @@ def shape(ct, S: Any, cls: str, props_cls: Optional[str] = None) -> List[Any]:
             M.is_Ref(r), M.rcls(r) == ct.id("dict")]
 
 
+def float_range(x: Any) -> Any:
+    """representation invariant of the float model: a finite float lies within +-DBL_MAX"""
+    return z3.Implies(M.is_FloatV(x), z3.And(M.fval(x) <= M.DBL_MAX, M.fval(x) >= -M.DBL_MAX))
+
+
 def nil_or(x: Any, pred: Any) -> Any:
     return z3.Or(x == M.NilV, pred)
 
@@ -102,6 +107,7 @@ def wf_def(ct, cls: str, S: Any) -> List[Any]:
     elif cls == "FloatSchema":
         for n in ("value", "min", "max"):
             f.append(nil_or(P(n), M.is_floatk(P(n))))
+            f.append(float_range(P(n)))
         pr = P("precision")
         f.append(nil_or(pr, z3.And(M.is_intlike(pr), 1 <= M.int_of(pr), M.int_of(pr) <= 15)))
     elif cls == "StrSchema":
@@ -172,11 +178,8 @@ def feq(a: Any, b: Any, precision: Any) -> Any:
 
 
 def in_alphabet(v: Any, alphabet: Any) -> Any:
-    """every character of string v occurs in string alphabet"""
-    i = z3.Int("ai")
-    return z3.ForAll([i], z3.Implies(z3.And(0 <= i, i < z3.Length(v)),
-                                     z3.Contains(alphabet, z3.SubString(v, i, 1))),
-                     patterns=[z3.SubString(v, i, 1)])
+    """every character of string v occurs in string alphabet (model.all_in, defined by two axioms)"""
+    return M.all_in(v, alphabet)
 
 
 def conforms_def(ct, cls: str, S: Any, v: Any) -> Any:
@@ -304,3 +307,31 @@ def path_ok(ct, p: Any, alloc: Any) -> Any:
 
 def pathseq_in(ph: Any, p: Any) -> Any:
     return z3.If(p == M.NilV, z3.Empty(M.SeqObj), z3.Select(ph, p))
+
+
+# ----------------------------------------------------------------------------- reachable states (C10 invariant)
+def reach_def(ct, cls: str, Sx: Any, regex_maxlen_fixed: bool = True) -> List[Any]:
+    """`Reach_T` of DESIGN Appendix C: well-formed kinds + the mutual-exclusion rules of the DSL +
+    self-consistency (a declared value conforms to the schema itself -- the C10 class invariant)."""
+    f = wf_def(ct, cls, Sx)
+    D = lambda n: declared(Sx, n)
+    P = lambda n: prop(Sx, n)
+    if cls == "StrSchema":
+        f.append(z3.Implies(D("len"), z3.And(z3.Not(D("min_len")), z3.Not(D("max_len")))))
+        f.append(z3.Implies(D("pattern"), z3.And(z3.Not(D("alphabet")), z3.Not(D("len")),
+                                                  z3.Not(D("min_len")), z3.Not(D("max_len")),
+                                                  z3.Not(D("substr")))))
+    if cls == "ListSchema":
+        f.append(z3.Implies(D("len"), z3.And(z3.Not(D("min_len")), z3.Not(D("max_len")))))
+    if "value" in PROP_NAMES[cls]:
+        f.append(z3.Implies(D("value"), conforms_def(ct, cls, Sx, P("value"))))
+    return f
+
+
+def registry_is(ct, cls: str, R: Any, Sx: Any, upd: Dict[str, Any]) -> Any:
+    """R is a `cls` instance whose props *view* (what Props.get returns for every prop name of the
+    class; a missing key and a stored Nil are the same observation) is Sx's view updated with `upd`."""
+    conj = list(shape(ct, R, cls))
+    for n in PROP_NAMES[cls]:
+        conj.append(prop(R, n) == (upd[n] if n in upd else prop(Sx, n)))
+    return z3.And(*conj)
